@@ -107,7 +107,7 @@ def expected_caps(caps):
 
 def plan(tier, seed):
     n = 16
-    return [dict(part=i, nparts=n, seed=seed * 100 + i, n=40000 if tier == 'quick' else 150000, tier=tier) for i in range(n)]
+    return [dict(part=i, nparts=n, seed=seed * 100 + i, n=40000 if tier == 'quick' else 600000, tier=tier) for i in range(n)]
 
 
 def run_shard(sh):
